@@ -23,6 +23,8 @@ import (
 	"time"
 
 	"k8s.io/utils/clock"
+
+	"github.com/dapr/kit/verifhook"
 )
 
 // Cron keeps track of any number of entries, invoking the associated func as
@@ -284,6 +286,7 @@ func (c *Cron) run() {
 		}
 
 		for {
+			verifhook.Point("cron.run.armed", timer != nil)
 			select {
 			case now = <-timerCh:
 				// Set timer to nil so we can exit cleanly
@@ -302,6 +305,7 @@ func (c *Cron) run() {
 					e.Next = e.Schedule.Next(now)
 					c.logger.Info("run", "now", now, "entry", e.ID, "next", e.Next)
 				}
+				verifhook.Point("cron.run.woke", now)
 
 			case newEntry := <-c.add:
 				now = c.now()
